@@ -1726,7 +1726,7 @@ func main() {
 			return
 		}
 	}
-	run := vlib.Start("C19", "exploration")
+	run := vlib.Start("C19", "fault_enumeration")
 	selfBin, _ = os.Executable()
 	var err error
 	if fi, e := os.Stat("/dev/shm"); e == nil && fi.IsDir() {
